@@ -7,7 +7,7 @@ RULE = (
     "the matrix entry point x invalid-specification class is enumerated completely: BOTH permeate conditions (30 % of them with a "
     "stated pressure of exactly 0 kPa) given to each "
     "of the 12 driving-force entry points (inner flux evaluation, flux solver, permeate-composition and separation-factor "
-    "helpers, ideal and non-ideal curve, 4 process models, pure-component flux, curve construction from fluxes) under both "
+    "helpers, ideal and non-ideal curve, 4 process models, pure-component flux, curve construction from fluxes - directly and through a csv table) under both "
     "activity models; a mixture without interaction parameters; NRTL / UNIQUAC parameters missing (activity coefficients, "
     "partial pressures, flux solver, both helpers, ideal curve, both ideal processes); UNIQUAC constants missing on the first / second component (direct and "
     "through the solver); a curve with neither fluxes nor permeances; activation energy and off-temperature permeance "
@@ -208,6 +208,41 @@ def cell_single_experiment(via):
     return (f"single experiment without activation energy -> {via}", build, False)
 
 
+def cell_table_route():
+    def build(rng):
+        import csv
+        import os
+        import tempfile
+        from pathlib import Path
+
+        from pyvaporation.diffusion_curve import DiffusionCurveSet
+
+        name = rng.choice(gen.BUILTIN_MIXTURES)
+        t = rng.uniform(283, 373)
+        tp, pp = rng.uniform(150, t - 1), rng.choice([0.0, rng.uniform(0, 5)])
+        rows = [(rng.uniform(0.05, 0.95), gen.loguniform(rng, 1e-3, 1), gen.loguniform(rng, 1e-3, 1)) for _ in range(rng.randint(1, 4))]
+
+        def load(both):
+            d = tempfile.mkdtemp(prefix="pvmon_c19_")
+            try:
+                path = Path(d) / "set.csv"
+                with open(path, "w", newline="") as fh:
+                    wr = csv.writer(fh)
+                    wr.writerow(["curve_id", "membrane_name", "mixture", "feed_temperature", "permeate_temperature", "permeate_pressure", "composition",
+                                 "composition_type", "partial_flux_1", "partial_flux_2", "permeance_1", "permeance_2", "units", "comment"])
+                    for w, j1, j2 in rows:
+                        wr.writerow(["c1", "M", name, repr(t), repr(tp), repr(pp) if both else "", repr(w), "weight", repr(j1), repr(j2), "", "", "", "x"])
+                return DiffusionCurveSet.load(path)
+            finally:
+                import shutil
+
+                shutil.rmtree(d, ignore_errors=True)
+
+        return (lambda: load(True)), (lambda: load(False)), {"mixture": name, "T": t, "Tp": tp, "pp": pp, "points": len(rows)}
+
+    return ("both permeate conditions -> DiffusionCurveSet.load(csv with fluxes)", build, False)
+
+
 ENTRIES = ["get_partial_fluxes_from_permeate_composition", "calculate_partial_fluxes", "calculate_permeate_composition", "calculate_separation_factor",
            "ideal_diffusion_curve", "non_ideal_diffusion_curve", "ideal_isothermal_process", "ideal_non_isothermal_process",
            "non_ideal_isothermal_process", "non_ideal_non_isothermal_process", "get_estimated_pure_component_flux", "DiffusionCurve(fluxes)"]
@@ -217,6 +252,7 @@ for _e in ENTRIES:
         if _e in ("get_estimated_pure_component_flux", "DiffusionCurve(fluxes)") and _m == "UNIQUAC":
             continue  # no activity-model argument
         CELLS.append(cell_both(_e, _m))
+CELLS.append(cell_table_route())
 CELLS.append(cell_no_parameters())
 for _w in ("nrtl", "uniquac", "const1", "const2"):
     for _v in ("activity coefficients", "partial pressures", "flux solver", "permeate-composition helper", "separation-factor helper", "ideal curve",
@@ -273,7 +309,7 @@ def finalize(agg, tier):
 
 
 LEVEL_TEXT = (
-    "Fault enumeration: the finite matrix (entry point x invalid-specification class, 57 cells) is enumerated completely; "
+    "Fault enumeration: the finite matrix (entry point x invalid-specification class, 58 cells) is enumerated completely; "
     "every cell is executed with K random otherwise-valid argument sets and must raise each time, while its control (the "
     "same arguments with the contradiction removed) must return at least once. Held means every invalid call of this run "
     "was rejected."
